@@ -22,6 +22,7 @@ type sessCfg struct {
 
 type sess struct {
 	s    *eval.State
+	eout strings.Builder // what EvalOne writes to its own writer argument (the shown result), kept apart from State.Out
 	out  strings.Builder
 	opts repl.Options
 	cfg  sessCfg
@@ -33,6 +34,7 @@ type stepRec struct {
 	errs     []string
 	panicked bool
 	cont     bool
+	split    string // how many bytes went to State.Out and how many to EvalOne's writer
 }
 
 func (r stepRec) String() string {
@@ -59,9 +61,11 @@ func (x *sess) step(input string) stepRec {
 	eval.VerifCacheOff = x.cfg.cacheOff
 	defer func() { eval.VerifCacheOff = false }()
 	x.out.Reset()
-	cont, panicked, errs, _ := repl.EvalOne(context.Background(), x.s, input, &x.out, x.opts)
-	observe("step", x.out.String(), strings.Join(errs, "\x00"))
-	return stepRec{out: x.out.String(), errs: errs, panicked: panicked, cont: cont}
+	x.eout.Reset()
+	cont, panicked, errs, _ := repl.EvalOne(context.Background(), x.s, input, &x.eout, x.opts)
+	all := x.out.String() + x.eout.String()
+	observe("step", all, strings.Join(errs, "\x00"))
+	return stepRec{out: all, errs: errs, panicked: panicked, cont: cont, split: fmt.Sprintf("%d+%d", x.out.Len(), x.eout.Len())}
 }
 
 // stepCtx is step with a caller-provided context (C09/C10).
@@ -69,9 +73,11 @@ func (x *sess) stepCtx(ctx context.Context, input string) stepRec {
 	eval.VerifCacheOff = x.cfg.cacheOff
 	defer func() { eval.VerifCacheOff = false }()
 	x.out.Reset()
-	cont, panicked, errs, _ := repl.EvalOne(ctx, x.s, input, &x.out, x.opts)
-	observe("step", x.out.String(), strings.Join(errs, "\x00"))
-	return stepRec{out: x.out.String(), errs: errs, panicked: panicked, cont: cont}
+	x.eout.Reset()
+	cont, panicked, errs, _ := repl.EvalOne(ctx, x.s, input, &x.eout, x.opts)
+	all := x.out.String() + x.eout.String()
+	observe("step", all, strings.Join(errs, "\x00"))
+	return stepRec{out: all, errs: errs, panicked: panicked, cont: cont, split: fmt.Sprintf("%d+%d", x.out.Len(), x.eout.Len())}
 }
 
 // runProgram evaluates one program on a fresh state.
@@ -112,7 +118,7 @@ func outcomeClass(r stepRec) string {
 // sameRec compares two records; errors are compared by text (the differential properties say "identical")
 // after dropping the stack trace lines, which legitimately name registers / cache details.
 func sameRec(a, b stepRec) bool {
-	if a.out != b.out || a.panicked != b.panicked || a.cont != b.cont || len(a.errs) != len(b.errs) {
+	if a.out != b.out || a.split != b.split || a.panicked != b.panicked || a.cont != b.cont || len(a.errs) != len(b.errs) {
 		return false
 	}
 	for i := range a.errs {
